@@ -5,5 +5,5 @@ for d in /tmp/wt6/C*/_out/h*; do
   [ -f "$d/patch.diff" ] && [ -f "$d/notes.md" ] && [ -f "$d/same.py" ] || continue
   p=$(echo "$d" | sed -E 's#/tmp/wt6/(C[0-9]+)/_out/.*#\1#'); n=$(basename "$d")
   [ -f "harmless/$p-$n/meta.json" ] && continue
-  echo "=== $p $n"; /venv/bin/python tools/harmlesstest.py "$p" "$d" --name "$n" 2>&1 | tail -12
+  echo "=== $p $n"; /venv/bin/python tools/harmlesstest.py "$p" "$d" --name "$n" --max-checks 4 2>&1 | tail -12
 done
